@@ -344,6 +344,10 @@ def main():
             elif agree == "E":
                 totals["errors"] += 1
                 disagreements.append((fam, tag, idx, kind, group, "ERROR " + detail))
+            if oracle == "VIOL" and P.get("viol_only_prefix") and not detail.startswith(P["viol_only_prefix"]):
+                oracle = "ok"   # another property's oracle; this check is about the prefix class only
+            if oracle == "VIOL" and P.get("viol_exclude_prefix") and detail.startswith(P["viol_exclude_prefix"]):
+                oracle = "na"
             if oracle == "ok":
                 totals["oracle_ok"] += 1
             elif oracle == "VIOL":
